@@ -5,7 +5,7 @@
    node evaluates once (NodeCycle).  TLC checks level A (ResultIsFold) and the level-B invariants after every cycle.
 
    SpecMC   one action per cycle, every operation sequence of at most MaxOps operations (canonical order where the order
-            cannot matter); no horizon unless Emit: the whole reachable space (VIEW NoHist drops the history).
+            cannot matter); MaxCycles = 0: no horizon, the whole reachable space (VIEW NoHist drops the history).
    SpecSim  for -simulate with 6-8 keys: a cycle is Plan (what kind of cycle: grow / shrink / remove the LAST leaf /
             remove the first leaf while the moved one ticks / ticks only / anything), Choose (the operations), Exec - so
             the random walk picks the KIND of cycle uniformly instead of drowning the rare shapes in the many adds.
@@ -51,11 +51,12 @@ OpSet == {Op("rem", k, 0) : k \in {x \in Keys : st[x] # "absent"}}
 Rank(o) == CASE o.op = "rem" -> 1 [] o.op = "add" -> 2 [] o.op = "val" -> 3 [] o.op = "addp" -> 4 [] o.op = "tick" -> 5
 \* removals, adds and late values are processed in the order given (every order is explored); the rest has no order
 After(a, b) == Rank(a) < Rank(b) \/ (Rank(a) = Rank(b) /\ (Rank(a) <= 3 \/ a.k < b.k))
-RECURSIVE OpSeqs(_)
-OpSeqs(m) == IF m = 0 THEN {<<>>}
-             ELSE LET S == OpSeqs(m - 1)
-                  IN S \cup UNION {{Append(s, o) : o \in {y \in OpSet : \A i \in 1..(m - 1) : s[i].k # y.k /\ (i = m - 1 => After(s[i], y))}}
-                                   : s \in {x \in S : Len(x) = m - 1}}
+\* (S, O are parameters: evaluated once)
+Extend(S, O, m) == S \cup UNION {{Append(s, o) : o \in {y \in O : \A i \in 1..(m - 1) : s[i].k # y.k /\ (i = m - 1 => After(s[i], y))}}
+                                 : s \in {x \in S : Len(x) = m - 1}}
+RECURSIVE OpSeqsOver(_, _)
+OpSeqsOver(O, m) == IF m = 0 THEN {<<>>} ELSE Extend(OpSeqsOver(O, m - 1), O, m)
+OpSeqs(m) == OpSeqsOver(OpSet, m)
 
 Sel(ops, kinds) == SelectSeq(ops, LAMBDA o : o.op \in kinds)
 KeySeq(s) == [i \in 1..Len(s) |-> s[i].k]
@@ -102,8 +103,8 @@ Forced(ops) == LET ks == {k \in Keys : st[k] = "pending" /\ \A i \in 1..Len(ops)
                IN IF PendMode # "one" THEN {<<>>}
                   ELSE {[i \in 1..Cardinality(ks) |-> Op("val", SeqOfSet(ks)[i], f[SeqOfSet(ks)[i]])] : f \in [ks -> Vals]}
 
-Budget == IF Emit THEN cyc < MaxCycles ELSE TRUE
-Finished == Emit /\ cyc = MaxCycles /\ ~done
+Budget == MaxCycles = 0 \/ cyc < MaxCycles          \* MaxCycles = 0: no horizon (the whole reachable space under VIEW NoHist)
+Finished == Emit /\ MaxCycles > 0 /\ cyc = MaxCycles /\ ~done
 Finish == /\ Finished
           /\ done' = TRUE
           /\ PrintT(<<"RTREE", ToJson([comb |-> Comb, haszero |-> IF HasZero THEN 1 ELSE 0, zero |-> Zero,
@@ -122,11 +123,10 @@ SpecMC == Init /\ [][NextMC]_vars
 PlanStep == /\ ~done /\ Budget /\ plan = "none"
             /\ plan' \in Plans
             /\ UNCHANGED <<st, val, node, cyc, hist, cops, done>>
+Pickable(S, ok) == IF ok = {} THEN S ELSE ok
+ChooseFrom(S) == \E ops \in Pickable(S, {s \in S : PlanOK(plan, s)}) : \E forced \in Forced(ops) : cops' = <<ops, forced>>
 ChooseStep == /\ ~done /\ plan \notin {"none", "exec"}
-              /\ LET S == OpSeqs(MaxOps)
-                     ok == {s \in S : PlanOK(plan, s) /\ (s # <<>> \/ PendMode = "one")}
-                 IN \E ops \in (IF ok = {} THEN {s \in S : s # <<>> \/ PendMode = "one"} ELSE ok) : \E forced \in Forced(ops) :
-                       cops' = <<ops, forced>>
+              /\ ChooseFrom({s \in OpSeqs(MaxOps) : s # <<>> \/ PendMode = "one"})
               /\ plan' = "exec"
               /\ UNCHANGED <<st, val, node, cyc, hist, done>>
 ExecStep == /\ ~done /\ plan = "exec"
@@ -137,7 +137,6 @@ NextSim == PlanStep \/ ChooseStep \/ ExecStep \/ Finish
 SpecSim == Init /\ [][NextSim]_vars
 
 \* ---------------------------------------------------------------- invariants (between cycles)
-Settled == plan # "exec"
 InvResultIsFold        == ResultIsFold(P, node, Now)
 InvKeyMapBijection     == KeyMapBijection(node)
 InvLeavesAreTheValid   == LeavesAreTheValid(node, Now)
